@@ -292,6 +292,11 @@ svcn!(SvcX, "s438b6a3a7f167ba5", u64);
 svcn!(SvcY, "s3e37f0a03b0b3b50", u64);
 // Q: a name that is a strict PREFIX of other registered names (`kv` of `kv::store`, `kv_store`)
 svcn!(SvcQ, "kv", M1);
+// R, T: names that continue Q's with a byte that sorts BEFORE `/` (`-`, `.`): in a sorted map their paths lie between `/kv` and `/kv/`;
+// V: `gen`, a strict prefix of the generic names G and H, whose paths continue with `%3C` (`%` sorts before `/` too)
+svcn!(SvcR, "kv-admin", M1);
+svcn!(SvcT, "kv.internal", M1);
+svcn!(SvcV, "gen", M1);
 svcn!(SvcP0, "ping-0", M1);
 svcn!(SvcP1, "ping-1", M1);
 svcn!(SvcP2, "ping-2", M1);
@@ -854,6 +859,9 @@ impl Domain for RpcDomain {
                     "K" => srv.add_service(SvcK { inst }),
                     "L" => srv.add_service(SvcL { inst }),
                     "Q" => srv.add_service(SvcQ { inst }),
+                    "R" => srv.add_service(SvcR { inst }),
+                    "T" => srv.add_service(SvcT { inst }),
+                    "V" => srv.add_service(SvcV { inst }),
                     "X" => srv.add_service(SvcX { inst }),
                     "Y" => srv.add_service(SvcY { inst }),
                     "P0" => srv.add_service(SvcP0 { inst }),
@@ -883,6 +891,9 @@ impl Domain for RpcDomain {
                     "K" => srv.remove_service(SvcK::service_name()),
                     "L" => srv.remove_service(SvcL::service_name()),
                     "Q" => srv.remove_service("kv"),
+                    "R" => srv.remove_service("kv-admin"),
+                    "T" => srv.remove_service("kv.internal"),
+                    "V" => srv.remove_service("gen"),
                     "X" => srv.remove_service("s438b6a3a7f167ba5"),
                     "Y" => srv.remove_service("s3e37f0a03b0b3b50"),
                     "P0" => srv.remove_service("ping-0"),
@@ -925,6 +936,9 @@ impl Domain for RpcDomain {
                     ("S", "M3") => runtime().block_on(RpcClient::<SvcS>::new(ch).send(&M3 { tag: 3 })).map(|r| r.deserialize_view().unwrap_or(u64::MAX)),
                     ("S", "M4") => runtime().block_on(RpcClient::<SvcS>::new(ch).send(&M4 { tag: 4 })).map(|r| r.deserialize_view().unwrap_or(u64::MAX)),
                     ("Q", "M1") => runtime().block_on(RpcClient::<SvcQ>::new(ch).send(&M1 { tag: 1 })).map(|r| r.deserialize_view().unwrap_or(u64::MAX)),
+                    ("R", "M1") => runtime().block_on(RpcClient::<SvcR>::new(ch).send(&M1 { tag: 1 })).map(|r| r.deserialize_view().unwrap_or(u64::MAX)),
+                    ("T", "M1") => runtime().block_on(RpcClient::<SvcT>::new(ch).send(&M1 { tag: 1 })).map(|r| r.deserialize_view().unwrap_or(u64::MAX)),
+                    ("V", "M1") => runtime().block_on(RpcClient::<SvcV>::new(ch).send(&M1 { tag: 1 })).map(|r| r.deserialize_view().unwrap_or(u64::MAX)),
                     ("X", "U") => runtime().block_on(RpcClient::<SvcX>::new(ch).send(&7u64)).map(|r| r.deserialize_view().unwrap_or(u64::MAX)),
                     ("Y", "U") => runtime().block_on(RpcClient::<SvcY>::new(ch).send(&7u64)).map(|r| r.deserialize_view().unwrap_or(u64::MAX)),
                     ("P0", "M1") => runtime().block_on(RpcClient::<SvcP0>::new(ch).send(&M1 { tag: 1 })).map(|r| r.deserialize_view().unwrap_or(u64::MAX)),
